@@ -320,11 +320,16 @@ class SourceCatalog:
                                                     'convolved_data')
         self._segment_img = self._validate_segment_img(segment_img)
         self._error = self._validate_array(error, 'error')
-        if self._error is not None and self._error.dtype.kind in 'iu':
-            # squaring an integer array can overflow its dtype
+        if self._error is not None and self._narrow_dtype(self._error):
+            # squaring an integer or a narrow float array can overflow
+            # (or lose precision in) its dtype
             self._error = self._error.astype(float)
         self._mask = self._validate_array(mask, 'mask')
         self._background = self._validate_array(background, 'background')
+        if (self._background is not None
+                and self._narrow_dtype(self._background)):
+            # sums of a narrow array are accumulated in its dtype
+            self._background = self._background.astype(float)
         self.wcs = wcs
         self.localbkg_width = self._validate_localbkg_width(localbkg_width)
         self.apermask_method = self._validate_apermask_method(apermask_method)
@@ -362,6 +367,15 @@ class SourceCatalog:
         self._extra_properties = []
         self.meta = _get_meta()
         self._update_meta()
+
+    @staticmethod
+    def _narrow_dtype(array):
+        """
+        Whether ``array`` has an integer dtype or a floating-point dtype
+        narrower than float64.
+        """
+        return (array.dtype.kind in 'iu'
+                or (array.dtype.kind == 'f' and array.dtype.itemsize < 8))
 
     def _validate_segment_img(self, segment_img):
         if not isinstance(segment_img, SegmentationImage):
